@@ -3,7 +3,7 @@
    harness evaluates each one inside coqc on every run and records it as a T0 obligation, so that a changed literal
    is reported as such and the theorems about the models stay checked.  In Coq strings a backslash is an ordinary
    character, so the expected values below are the raw regex sources. *)
-From GV Require Import Base.Str Gen.C20Lit.
+From GV Require Import Base.Str Gen.C20Lit Model.FixWs Model.Wrap.
 
 Definition pairs_eqb := list_eqb (pair_eqb String.eqb String.eqb).
 
@@ -29,6 +29,23 @@ Definition pin_wrap_numbers : bool := list_eqb String.eqb wrap_numbers ["0"; "0.
 Definition pin_rst : bool := String.eqb rst_search_re "[|*`_[\]]" &&
   pairs_eqb rst_wrap_kwargs [("indent", "indent"); ("offset", "indent + 3"); ("width", "width - indent")].
 
+(* the prologue of wrap: expandtabs() without argument, then lstrip of exactly the characters of is_lblank *)
+Fixpoint upto (n : nat) : list N := match n with O => [] | S n' => (upto n' ++ [N.of_nat n'])%list end.
+Definition pin_wrap_prologue : bool :=
+  match wrap_prologue_calls with
+  | [[]; [blanks]] =>
+      String.eqb blanks (sx [32;9;11;12;13;28;29;30;31]%N) &&
+      forallb (fun n => Bool.eqb (is_lblank (chr n)) (contains (chr n) blanks)) (upto 256)
+  | _ => false
+  end.
+
+(* the tail of rst: one literal replace (the terminator by its escaped form = esc3), the two endswith tests in order, and
+   what is appended *)
+Definition pin_rst_tail : bool :=
+  pairs_eqb rst_replaces [(String dq (String dq (String dq "")), esc3)] &&
+  list_eqb String.eqb rst_endswith [s1 bs; s1 dq] &&
+  list_eqb String.eqb rst_appends ["'\n' + ' ' * indent"; "' '"; "'.'"].
+
 (* on the tree the models were written against, every pin holds *)
 Definition all_pins : list (string * bool) :=
   [("fix_whitespace: the three re.sub patterns and replacement templates, in order", pin_fw_subs);
@@ -37,4 +54,6 @@ Definition all_pins : list (string * bool) :=
    ("wrap: keyword arguments of the textwrap.wrap call", pin_wrap_textwrap_wrap_call);
    ("wrap: keyword arguments of the textwrap.fill call", pin_wrap_textwrap_fill_call);
    ("wrap: numeric constants (0, 0.75, 1)", pin_wrap_numbers);
-   ("rst: the re.search pattern and the arguments of the wrap call", pin_rst)].
+   ("rst: the re.search pattern and the arguments of the wrap call", pin_rst);
+   ("wrap: the prologue text.expandtabs().lstrip(blanks), blanks = the class is_lblank of the model", pin_wrap_prologue);
+   ("rst: the literal replace, the endswith tests and the appended strings of its tail", pin_rst_tail)].
